@@ -252,7 +252,13 @@ func (m *Model) runCheck(prop, tier string, keep bool, timeout int) int {
 			// obligation of another property's clause that this check re-proves (selection rule) is the same finding
 			if k.Obligation == o.Name || k.Obligation == stripRet(o.Name) {
 				isKnown = true
-				fmt.Printf("KNOWN-FINDING: property=%s %s: %s\n", k.Property, o.Name, k.Witness)
+				if k.Property == prop {
+					fmt.Printf("KNOWN-FINDING: property=%s %s: %s\n", k.Property, o.Name, k.Witness)
+				} else {
+					// a clause of another property that this check re-proves because it shares the function:
+					// that property's own check reports the finding
+					fmt.Printf("  (not counted: %s fails, the recorded finding of property %s)\n", o.Name, k.Property)
+				}
 				knownHit = append(knownHit, o.Name)
 				break
 			}
